@@ -25,6 +25,7 @@ import LfsModel.LogScan
 import LfsModel.Prune
 import LfsModel.Fsck
 import LfsModel.Rewrite
+import LfsModel.Locks
 open Lfs
 
 namespace Oracle
@@ -554,6 +555,40 @@ def c12 : List String → String
            if c.tree.isEmpty then "-" else String.intercalate "," (c.tree.map fun e => s!"{e.path}:{e.mode}:{e.blob}")))
   | _ => "bad-op"
 
+/-! ### C16 -/
+def c16 : List String → String
+  | ["run", ops] =>
+    let srvOf := fun (x : String) => if x == "ok" then Lk.Srv.ok else Lk.Srv.refuse
+    let ops? : Option (List Lk.Op) := (ops.splitOn ";").mapM fun o =>
+      match o.splitOn ":" with
+      | ["L", p, sv] => p.toNat?.map fun p => Lk.Op.lock p (srvOf sv)
+      | ["U", p, f, m, sv] => p.toNat?.map fun p => Lk.Op.unlockPath p (f == "1") (m == "1") (srvOf sv)
+      | ["I", i, f, m, sv] => i.toNat?.map fun i => Lk.Op.unlockId i (f == "1") (m == "1") (srvOf sv)
+      | ["V", sv] => some (Lk.Op.verify (srvOf sv))
+      | ["O", p, w] => (do let p ← p.toNat?; let w ← w.toNat?; pure (Lk.Op.otherLock p w))
+      | ["R", p] => p.toNat?.map Lk.Op.otherUnlock
+      | _ => none
+    (match ops? with
+     | none => "bad-op"
+     | some ops =>
+       let showSt := fun (s : Lk.St) =>
+         "t=" ++ String.intercalate "," (sortStr (s.table.map fun l => s!"{l.path}/{l.owner}")) ++
+         " c=" ++ String.intercalate "," (sortStr (s.cache.map fun l => s!"{l.path}"))
+       let rec go (s : Lk.St) : List Lk.Op → List String
+         | [] => []
+         | o :: os => let s' := Lk.step s o; showSt s' :: go s' os
+       String.intercalate ";" (go { table := [], cache := [], nextId := 1 } ops))
+  | ["push", v, table, touched] =>
+    (match natList touched with
+     | none => "bad-op"
+     | some tl =>
+       let t : List Lk.Lock := if table == "-" then [] else (table.splitOn ",").filterMap fun x =>
+         match x.splitOn "/" with
+         | [p, o] => (do let p ← p.toNat?; let o ← o.toNat?; pure (⟨0, p, o⟩ : Lk.Lock))
+         | _ => none
+       if Lk.pushRejected (v == "1") t tl then "rejected" else "accepted")
+  | _ => "bad-op"
+
 def answer (line : String) : String :=
   match line.splitOn " " with
   | "C07" :: rest => c07 rest
@@ -574,6 +609,7 @@ def answer (line : String) : String :=
   | "C05" :: rest => c05 rest
   | "C13" :: rest => c13 rest
   | "C12" :: rest => c12 rest
+  | "C16" :: rest => c16 rest
   | ["C01", "mergeout", o, n] => (match unhex o, unhex n with
       | some o, some n => hex (Flt.mergeDriverOutput o n) | _, _ => "bad-op")
   | _ => "bad-op"
